@@ -5,10 +5,10 @@ package main
 
 import (
 	"crypto/sha256"
-	"time"
 	"fmt"
 	"go/types"
 	"strings"
+	"time"
 
 	"golang.org/x/tools/go/ssa"
 )
@@ -163,13 +163,21 @@ func init() {
 		idx := indexAny(false)(ex, fn, a).(*Term)
 		return ex.tc.Not(ex.tc.Eq(idx, ex.tc.BV(^uint64(0), 64)))
 	})
-	reg("strings.IndexByte", func(ex *Exec, fn *ssa.Function, a []Value) Value { return ex.strIndexByte(a[0].(Str), a[1].(*Term), false) })
-	reg("strings.LastIndexByte", func(ex *Exec, fn *ssa.Function, a []Value) Value { return ex.strIndexByte(a[0].(Str), a[1].(*Term), true) })
-	reg("internal/bytealg.IndexByteString", func(ex *Exec, fn *ssa.Function, a []Value) Value { return ex.strIndexByte(a[0].(Str), a[1].(*Term), false) })
+	reg("strings.IndexByte", func(ex *Exec, fn *ssa.Function, a []Value) Value {
+		return ex.strIndexByte(a[0].(Str), a[1].(*Term), false)
+	})
+	reg("strings.LastIndexByte", func(ex *Exec, fn *ssa.Function, a []Value) Value {
+		return ex.strIndexByte(a[0].(Str), a[1].(*Term), true)
+	})
+	reg("internal/bytealg.IndexByteString", func(ex *Exec, fn *ssa.Function, a []Value) Value {
+		return ex.strIndexByte(a[0].(Str), a[1].(*Term), false)
+	})
 	reg("internal/bytealg.IndexByte", func(ex *Exec, fn *ssa.Function, a []Value) Value {
 		return ex.strIndexByte(ex.sliceAsStr(a[0]), a[1].(*Term), false)
 	})
-	reg("internal/bytealg.LastIndexByteString", func(ex *Exec, fn *ssa.Function, a []Value) Value { return ex.strIndexByte(a[0].(Str), a[1].(*Term), true) })
+	reg("internal/bytealg.LastIndexByteString", func(ex *Exec, fn *ssa.Function, a []Value) Value {
+		return ex.strIndexByte(a[0].(Str), a[1].(*Term), true)
+	})
 	reg("internal/bytealg.IndexString", func(ex *Exec, fn *ssa.Function, a []Value) Value { return ex.strIndexOf(a[0].(Str), a[1].(Str), false) })
 	reg("internal/bytealg.Index", func(ex *Exec, fn *ssa.Function, a []Value) Value {
 		return ex.strIndexOf(ex.sliceAsStr(a[0]), ex.sliceAsStr(a[1]), false)
@@ -199,7 +207,9 @@ func init() {
 		return tc.Ite(eq, tc.BV(0, 64), tc.Ite(lt, tc.BV(^uint64(0), 64), tc.BV(1, 64)))
 	})
 	reg("internal/stringslite.Index", func(ex *Exec, fn *ssa.Function, a []Value) Value { return ex.strIndexOf(a[0].(Str), a[1].(Str), false) })
-	reg("internal/stringslite.IndexByte", func(ex *Exec, fn *ssa.Function, a []Value) Value { return ex.strIndexByte(a[0].(Str), a[1].(*Term), false) })
+	reg("internal/stringslite.IndexByte", func(ex *Exec, fn *ssa.Function, a []Value) Value {
+		return ex.strIndexByte(a[0].(Str), a[1].(*Term), false)
+	})
 	reg("internal/stringslite.HasPrefix", func(ex *Exec, fn *ssa.Function, a []Value) Value { return ex.strHasPrefix(a[0].(Str), a[1].(Str)) })
 	reg("internal/stringslite.HasSuffix", func(ex *Exec, fn *ssa.Function, a []Value) Value { return ex.strHasSuffix(a[0].(Str), a[1].(Str)) })
 	reg("strings.HasPrefix", func(ex *Exec, fn *ssa.Function, a []Value) Value { return ex.strHasPrefix(a[0].(Str), a[1].(Str)) })
